@@ -202,6 +202,11 @@ func (r *ReaderStream) Read(p []byte) (int, error) {
 // manner that's safe for the assembler (IE: it doesn't block).
 func (r *ReaderStream) Close() error {
 	r.current = nil
+	// A batch received by Read is acknowledged only when the next one is needed: if one is
+	// still outstanding the assembler is waiting on done, not sending, and must be released first.
+	if !r.first && !r.closed {
+		r.done <- true
+	}
 	r.closed = true
 	for {
 		if _, ok := <-r.reassembled; !ok {
